@@ -144,6 +144,18 @@ def applyAction (m : Sim) (a : String) : Sim :=
     | 'D' => { m with s := step m.s (.deliverEnd k) }
     | _ => m
 
+/-- `SH`: StartAsync, and a StopAsync from a second goroutine that lands after `k` of the service goroutine's
+own steps (the second goroutine is released when StartAsync leaves its critical section and races with
+`main`). Every `k` is an interleaving of the model; the replay takes the one the implementation showed. -/
+def tausN : Nat → Svc → Svc
+  | 0, s => s
+  | k + 1, s => if tauEnabled s then tausN k (step s .tau) else s
+
+def applyStartHook (m : Sim) (k : Nat) : Sim :=
+  let ok := startAsyncOk m.s
+  let s1 := step m.s .startAsync
+  { m with lastRet := if ok then "ok" else "e", s := step (tausN k s1) .stopAsync }
+
 def callStr (kind : Char) : Call → List String
   | .start c => ["s" ++ flag c]
   | .run c => if kind == 'b' then ["r" ++ flag c] else []
@@ -227,7 +239,14 @@ def simulate (cfg : String) (acts : List String) (impl : List Snap) : List Strin
       let h : Hints := match impl with
         | sn :: _ => { wR := sn.wR, cR := sn.cR, hS := sn.hS }
         | [] => {}
-      let m := updateWaiters (settleFuel 64 (applyAction m a)) h
+      let m :=
+        if a == "SH" then
+          let cands := (List.range 8).map fun k => updateWaiters (settleFuel 64 (applyStartHook m k)) h
+          let pickd := match impl with
+            | sn :: _ => cands.find? (fun c => snapshot c == sn.raw)
+            | [] => none
+          pickd.getD (cands.headD m)
+        else updateWaiters (settleFuel 64 (applyAction m a)) h
       go m rest impl.tail (snapshot m :: acc)
   go m0 acts impl.tail [snapshot m0]
 
@@ -276,6 +295,7 @@ def judgeSvc (cfg : String) (acts : List String) (snaps : List Snap) : List Stri
   let mut errsReleased : List String := []
   let mut startRetNil := false
   let mut wCancelled := false
+  let mut stopRequested := false
   let mut regAt : List (Nat × Nat) := []      -- listener id ↦ primary log length at registration
   let mut released : List Nat := []           -- one entry per executed D<k>
   let mut nextId := 1
@@ -301,7 +321,8 @@ def judgeSvc (cfg : String) (acts : List String) (snaps : List Snap) : List Stri
       nextId := nextId + 1
     if headC a == 'D' then released := natOf (dropS a 1) :: released
     -- markers of the harness: re-entrant callback, stuck wait
-    if sn.bad != "-" then bad := add bad ("harness-flag:" ++ sn.bad)
+    let otherFlags := (sn.bad.splitOn ",").filter fun x => x != "-" && x != "hkpanic" && x != "hknilctx"
+    if !otherFlags.isEmpty then bad := add bad ("harness-flag:" ++ ",".intercalate otherFlags)
     -- transitions: the primary listener saw a legal chain from New ending in the current state
     if !chainOk "N" l0 then bad := add bad "illegal-edge-or-broken-chain"
     if lastTo l0 != sn.st then bad := add bad "state-not-last-transition"
@@ -309,10 +330,19 @@ def judgeSvc (cfg : String) (acts : List String) (snaps : List Snap) : List Stri
     | some p => if !isPrefixOf (p.lsns.headD ("", [])).2 l0 then bad := add bad "transition-log-rewritten"
     | none => pure ()
     -- StartAsync succeeds exactly from New
-    if a == "S" then
+    if a == "S" || a == "SH" then
       match prev with
       | some p => if (sn.ret == "ok") != (p.st == "N") then bad := add bad "startasync-result"
       | none => pure ()
+    -- starts racing with stops: a StopAsync (or ServiceContext) call issued by another goroutine while
+    -- StartAsync is in flight neither crashes nor is lost, and a started service has a context
+    let flags := sn.bad.splitOn ","
+    if flags.contains "hkpanic" then bad := add bad "stopasync-panicked-during-startasync"
+    if flags.contains "hknilctx" then bad := add bad "service-context-nil-while-started"
+    if l0.contains "S" && sn.ctx == "n" then bad := add bad "service-context-nil-while-started"
+    if a == "X" || a == "SH" then stopRequested := true
+    if stopRequested && (sn.st == "N" || ((sn.st == "S" || sn.st == "R") && sn.ctx != "1")) then
+      bad := add bad "stop-request-lost"
     -- functions: at most once each, in order start, run, stop
     let fns := (sn.calls.map fnName).filter (· != "i")
     if !([[], ["s"], ["s", "r"], ["s", "p"], ["s", "r", "p"], ["r"], ["r", "p"], ["p"]].contains fns) then bad := add bad "fn-order-or-repeat"
@@ -383,7 +413,7 @@ def handleSvc (f : List String) : String × String × String :=
       let j := judgeSvc cfg acts snaps
       let judge := if j.isEmpty then "-" else ",".intercalate j
       let last := snaps.getLast?
-      let started := acts.contains "S" || acts.contains "SA"
+      let started := acts.contains "S" || acts.contains "SA" || acts.contains "SH"
       let nerr := (acts.filter fun a => a.length == 2 && "srpi".toList.contains (headC a) && dropS a 1 != "0").length
       let tags := s!"k=svc cfg={cfg} started={flag started} final={(last.map (·.st)).getD "?"} len={min acts.length 8} lsn={(last.map (·.lsns.length)).getD 0} errs={min nerr 2}"
       (diff, judge, tags)
@@ -581,7 +611,8 @@ def judgeMgr (cfgs : List String) (acts : List String) (snaps : List MSnap) : Li
       regAt := regAt ++ [(nextId, match prev with | some p => (p.lsns.headD ("", [])).2.length | none => 0)]
       nextId := nextId + 1
     if kind == "MD" then released := idx :: released
-    if sn.bad != "-" then bad := add bad ("harness-flag:" ++ sn.bad)
+    let otherFlags := (sn.bad.splitOn ",").filter fun x => x != "-" && x != "hkpanic" && x != "hknilctx"
+    if !otherFlags.isEmpty then bad := add bad ("harness-flag:" ++ ",".intercalate otherFlags)
     let allRunning := views.all (· == "R")
     let allTerminal := views.all (fun v => v == "T" || v == "F")
     if allRunning then everHealthy := true
@@ -786,8 +817,44 @@ def handleFWBlock (f : List String) : String × String × String :=
     (diff, "-", s!"k=fwblock n={n} closes={min (countOf acts "C") 2} reads={min (countOf acts "RD") 3}")
   | _ => ("bad-fields", "-", "-")
 
+/-! ### StartAsync racing with StopAsync (stress stream)
+
+Inputs: batch number, number of trials. Observation: `startWon,stopWon,lost,slow,panicked` counted once both
+calls of a trial had returned. Model: on a fresh idle service every interleaving of the two calls with the
+service's own steps (stop first; or stop after `k` steps of `main`) ends in a terminal state, with StartAsync
+refused exactly when the stop came first. The judge is the statement itself: a stop request that has returned
+is never lost, whichever call won. -/
+def raceModelFinals : List (String × String) :=
+  let m0 := updateWaiters (settleFuel 64 (initSim "i010")) {}
+  let stopFirst := settleFuel 64 (applyAction (settleFuel 64 (applyAction m0 "X")) "S")
+  let startFirst := (List.range 8).map fun k => settleFuel 64 (applyStartHook m0 k)
+  (stopFirst :: startFirst).map fun m =>
+    (m.lastRet, match m.s.st with | .terminated => "T" | .failed => "F" | _ => "live")
+
+def handleRace (f : List String) : String × String × String :=
+  match f with
+  | [_batch, trialsS, obs] =>
+    match (obs.splitOn ",").map natOf with
+    | [startWon, stopWon, lost, slow, panicked] =>
+      let finals := raceModelFinals
+      let modelOk := finals.all (fun p => p.2 == "T") && finals.head? == some ("e", "T") &&
+        (finals.drop 1).all (fun p => p.1 == "ok")
+      let diff :=
+        if !modelOk then "model-has-a-live-interleaving"
+        else if lost > 0 || panicked > 0 || startWon + stopWon != natOf trialsS then
+          s!"model=every interleaving of StartAsync and StopAsync ends Terminated; lost={lost} panicked={panicked}"
+        else "-"
+      let j := (if lost > 0 then ["start-stop-race-left-service-running"] else []) ++
+        (if panicked > 0 then ["start-stop-race-panicked"] else [])
+      let judge := if j.isEmpty then "-" else ",".intercalate j
+      let tags := s!"k=race both={flag (startWon > 0 && stopWon > 0)} slow={flag (slow > 0)}"
+      (diff, judge, tags)
+    | _ => ("bad-observation", "-", "-")
+  | _ => ("bad-fields", "-", "-")
+
 def handle (cmd : String) (f : List String) : String × String × String :=
-  if cmd == "C17.svc" then handleSvc f
+  if cmd == "C17.race" then handleRace f
+  else if cmd == "C17.svc" then handleSvc f
   else if cmd == "C17.mgr" then handleMgr f
   else if cmd == "C17.mgrnew" then handleMgrNew f
   else if cmd == "C17.fw" then handleFW f
